@@ -543,6 +543,12 @@ func (db *DB) Scan(dest interface{}) (tx *DB) {
 		} else {
 			tx.RowsAffected = 0
 			tx.AddError(rows.Err())
+			// no row: empty a slice destination as Find does (a slice of maps is only ever appended to)
+			if _, ok := dest.(*[]map[string]interface{}); !ok {
+				if rv := reflect.Indirect(reflect.ValueOf(dest)); rv.Kind() == reflect.Slice && rv.CanSet() {
+					rv.SetLen(0)
+				}
+			}
 		}
 		tx.AddError(rows.Close())
 	}
